@@ -334,12 +334,15 @@ func (ex *Exec) tableGet(w *World, id string, key []*smt.Term) *BytesV {
 		has = smt.Var(t.Base+"!has", smt.Bool)
 	}
 	if ex.branch(has) {
-		return &BytesV{Tag: "row", Row: &RowRef{Base: t.Base, Key: key}}
+		return &BytesV{Tag: "row", Row: &RowRef{Base: t.Base, Key: key, Table: id, TKey: key}}
 	}
 	return nil
 }
 
 func (ex *Exec) tableSet(w *World, id string, key []*smt.Term, val *BytesV) {
+	if val != nil && val.Tag == "marshal" {
+		ex.rowInvWrite(id, key, val)
+	}
 	ex.aggUpdate(w, id, key, val)
 	t := w.table(ex, id)
 	t.Writes = append(t.Writes, tWrite{Key: key, Present: val != nil, Val: val})
@@ -354,7 +357,7 @@ func (ex *Exec) tableSet(w *World, id string, key []*smt.Term, val *BytesV) {
 func (ex *Exec) tableHavocRow(w *World, id string, key []*smt.Term) {
 	ex.fresh++
 	base := fmt.Sprintf("%sT!%s!h%d", ex.worldBase, id, ex.fresh)
-	val := &BytesV{Tag: "row", Row: &RowRef{Base: base, Key: nil}}
+	val := &BytesV{Tag: "row", Row: &RowRef{Base: base, Key: nil, Table: id, TKey: key}}
 	has := smt.Var(base+"!has", smt.Bool)
 	// aggregate contribution of the new unknown row is accounted like a set
 	if len(ex.aggsOn(id)) > 0 {
